@@ -157,7 +157,7 @@ theorem expandItem_fits_err (ms : List MacroDef) :
         subst hfa
         obtain ⟨x, hx, hfx⟩ := List.mem_map.1 (collectEager_error he2)
         exact ih a.1 (List.fst_mem_of_mem_zipIdx ha) x.1 (List.fst_mem_of_mem_zipIdx hx) f σ _ (by omega) _ hfx
-      · exact flattenP_error hfa
+      · exact (flattenP_error hfa).elim
     · cases he
   | @mac n m args d hl hhead hlen _ ih =>
     intro fuel σ π hn e he
@@ -170,6 +170,53 @@ theorem expandItem_fits_err (ms : List MacroDef) :
       subst he
       obtain ⟨x, hx, hfx⟩ := mapLazy_error he1
       exact ih x.1 (List.fst_mem_of_mem_zipIdx hx) f _ _ (by omega) _ hfx
-    · exact flattenP_error he
+    · exact (flattenP_error he).elim
+
+/-- since fix 71f89c5 (`flatten_punctuated` total) macro expansion never panics there -/
+theorem expandItem_ne_panicFlatten (ms : List MacroDef) :
+    ∀ (fuel : Nat) (σ : Env) (π : List Nat) (it : Item), expandItem ms fuel σ π it ≠ .error .panicFlatten := by
+  intro fuel
+  induction fuel with
+  | zero => intro σ π it h; rw [expandItem] at h; cases h
+  | succ f ih =>
+    intro σ π it he
+    cases it with
+    | clause rel args conds => simp [expandItem] at he
+    | binder b => simp [expandItem] at he
+    | agg rel args pat bound => simp [expandItem] at he
+    | neg rel k => simp [expandItem] at he
+    | disj alts =>
+      rw [expandItem] at he
+      split at he
+      · rename_i e1 he1
+        simp only [Except.error.injEq] at he
+        subst he
+        obtain ⟨a, ha, hfa⟩ := List.mem_map.1 (collectEager_error he1)
+        split at hfa
+        · rename_i e2 he2
+          simp only [Except.error.injEq] at hfa
+          subst hfa
+          obtain ⟨x, hx, hfx⟩ := List.mem_map.1 (collectEager_error he2)
+          exact ih _ _ _ hfx
+        · cases hfa
+      · cases he
+    | mac name args =>
+      rw [expandItem] at he
+      split at he
+      · cases he
+      · split at he
+        · cases he
+        · split at he
+          · cases he
+          · split at he
+            · cases he
+            · dsimp only at he
+              split at he
+              · rename_i e1 he1
+                simp only [Except.error.injEq] at he
+                subst he
+                obtain ⟨x, hx, hfx⟩ := mapLazy_error he1
+                exact ih _ _ _ hfx
+              · cases he
 
 end AscentVerif.Check
